@@ -1,38 +1,51 @@
 //! experiments (not registered)
-use super::c04::*;
+use super::c01::*;
 use super::gen::*;
 use super::refcodec::*;
 use super::util::*;
 use crate::dlt::*;
 use crate::parse::*;
+use byteorder::{BigEndian, LittleEndian};
 
-#[kani::proof]
-#[kani::stub(alloc::fmt::format, fmt_stub)]
-#[kani::unwind(12)]
-fn exp_t1() {
-    let l: u8 = kani::any();
-    kani::assume(l <= 20);
-    let p: [u8; 4] = kani::any();
-    let buf: [u8; 18] = [0x21, 7, 0, l, 0x41, 0, b'A', b'P', b'P', 0, b'C', b'T', b'X', 0, p[0], p[1], p[2], p[3]];
-    check_consumption_opt(&buf, None, false);
+fn str_arg<const S: usize>() -> Argument {
+    Argument {
+        type_info: TypeInfo { kind: TypeInfoKind::StringType, coding: StringCoding::UTF8, has_variable_info: false, has_trace_info: false },
+        name: None, unit: None, fixed_point: None, value: Value::StringVal(text_exact::<S>()),
+    }
 }
 
 #[kani::proof]
 #[kani::stub(alloc::fmt::format, fmt_stub)]
 #[kani::unwind(12)]
-fn exp_t2() {
-    let l: u8 = kani::any();
-    kani::assume(l <= 20);
-    let p: [u8; 4] = kani::any();
-    let buf: [u8; 18] = [0x21, 7, 0, l, 0x41, 0, b'A', b'P', b'P', 0, b'C', b'T', b'X', 0, p[0], p[1], p[2], p[3]];
-    let _ = dlt_message(&buf, None, false);
+fn exp_w_s3() {
+    let a = str_arg::<3>();
+    let bytes = a.as_bytes::<BigEndian>();
+    let mut o = Out::new();
+    ref_put_argument(&mut o, &a, true);
+    assert!(o.eq_bytes(&bytes));
+    assert!(a.len() == bytes.len());
 }
 
 #[kani::proof]
 #[kani::stub(alloc::fmt::format, fmt_stub)]
-#[kani::unwind(12)]
-fn exp_t3() {
-    let p: [u8; 4] = kani::any();
-    let buf: [u8; 18] = [0x21, 7, 0, 16, 0x41, 0, b'A', b'P', b'P', 0, b'C', b'T', b'X', 0, p[0], p[1], p[2], p[3]];
-    let _ = dlt_message(&buf, None, false);
+#[kani::unwind(14)]
+fn exp_p_s3() {
+    let a = str_arg::<3>();
+    let mut o = Out::new();
+    ref_put_argument(&mut o, &a, true);
+    let tail: [u8; 2] = kani::any();
+    o.put(tail[0]);
+    o.put(tail[1]);
+    const N: usize = 4 + 2 + 3 + 1 + 2;
+    assert!(o.n == N);
+    let mut arr = [0u8; N];
+    let mut i = 0;
+    while i < N { arr[i] = o.b[i]; i += 1; }
+    match dlt_argument::<BigEndian>(&arr) {
+        Ok((rest, a2)) => {
+            assert!(argument_eq(&a, &a2));
+            assert!(bytes_eq(rest, &tail));
+        }
+        Err(_) => { assert!(false); }
+    }
 }
